@@ -145,6 +145,13 @@ func (g *Gen) call(st *State, site ssa.Instruction, c *ssa.CallCommon, rt types.
 			for _, k := range keys {
 				if cs.Name == k {
 					g.calleeUse[cs]++
+					if static != nil {
+						if fs := g.W.specFor(static); fs != nil && !fs.Trusted {
+							// the callee has its own (verified) contract: it supplies requires / ensures / frame;
+							// the call-site clause adds ghost updates, extra requires, and extra *assumed* ensures
+							return g.applyFuncSpecWith(st, fs, static, args, rt, cs)
+						}
+					}
 					return g.applyCalleeSpec(st, cs, c, recv, args, rt)
 				}
 			}
@@ -267,6 +274,10 @@ func (g *Gen) applyCalleeSpec(st *State, cs *CalleeSpec, c *ssa.CallCommon, recv
 }
 
 func (g *Gen) applyFuncSpec(st *State, fs *FuncSpec, fn *ssa.Function, args []Val, rt types.Type) Val {
+	return g.applyFuncSpecWith(st, fs, fn, args, rt, nil)
+}
+
+func (g *Gen) applyFuncSpecWith(st *State, fs *FuncSpec, fn *ssa.Function, args []Val, rt types.Type, extra *CalleeSpec) Val {
 	binds := map[string]Val{}
 	var pnames []string
 	if r := fn.Signature.Recv(); r != nil {
@@ -297,6 +308,7 @@ func (g *Gen) applyFuncSpec(st *State, fs *FuncSpec, fn *ssa.Function, args []Va
 	}
 	// logical / ghost variables of the callee
 	var mut []string
+	internal := map[string]bool{}
 	for _, gd := range fs.Ghosts {
 		var bexpr Expr
 		if g.spec != nil {
@@ -310,6 +322,10 @@ func (g *Gen) applyFuncSpec(st *State, fs *FuncSpec, fn *ssa.Function, args []Va
 		}
 		if bexpr != nil {
 			binds[gd.Name] = g.evalSpec(&specCtx{g: g, st: st, old: st, binds: binds, calleeOnly: true}, bexpr)
+			continue
+		}
+		if gd.Init != nil {
+			internal[gd.Name] = true // bookkeeping ghost of the callee: invisible to callers
 			continue
 		}
 		if _, ok := st.ghosts[gd.Name]; !ok {
@@ -330,10 +346,38 @@ func (g *Gen) applyFuncSpec(st *State, fs *FuncSpec, fn *ssa.Function, args []Va
 			havoc = true
 		}
 	}
-	return g.applyContract(st, contractApp{
-		what: "call " + fs.Name, binds: binds, requires: fs.Requires, ensures: fs.Ensures, mod: fs.Modifies, pure: pure, havocAll: havoc,
+	ens := fs.Ensures
+	if len(internal) > 0 {
+		ens = nil
+		for _, c := range fs.Ensures {
+			if !mentions(c.E, internal) {
+				ens = append(ens, c)
+			}
+		}
+	}
+	app := contractApp{
+		what: "call " + fs.Name, binds: binds, requires: fs.Requires, ensures: ens, mod: fs.Modifies, pure: pure, havocAll: havoc,
 		rt: rt, resultNames: rn, clausePrefix: "call " + fs.Name + " ", calleeGhosts: fs.Ghosts, mutGhosts: mut,
-	})
+	}
+	if extra != nil {
+		// positional names of the clause are additional aliases for the explicit arguments
+		explicit := args
+		if fn.Signature.Recv() != nil && len(args) > 0 {
+			explicit = args[1:]
+		}
+		for i, n := range extra.Params {
+			if i < len(explicit) && n != "_" {
+				binds[n] = explicit[i]
+			}
+		}
+		app.extra = extra
+		if len(extra.Ensures) > 0 && !g.discovery {
+			for _, c := range extra.Ensures {
+				g.trustedUsed["assumed at call site of "+fs.Name+" (beyond its verified contract): "+c.Src] = true
+			}
+		}
+	}
+	return g.applyContract(st, app)
 }
 
 type contractApp struct {
@@ -351,6 +395,7 @@ type contractApp struct {
 	ownNames     bool // callee clause inside this function's spec: caller's locals are visible
 	calleeGhosts []*GhostDecl
 	mutGhosts    []string
+	extra        *CalleeSpec // call-site additions on top of a function contract (mixed naming context)
 }
 
 func (g *Gen) applyContract(st *State, a contractApp) Val {
@@ -405,6 +450,19 @@ func (g *Gen) applyContract(st *State, a contractApp) Val {
 			results = []Val{v}
 		}
 	}
+	if a.extra != nil {
+		xctx := &specCtx{g: g, st: pre, old: pre, binds: a.binds, oldIsPre: true}
+		for _, c := range a.extra.Requires {
+			// checked in the pre-state; reported at the call
+			goal := g.evalBool(xctx, c.E)
+			g.oblige(st, "requires", "callee "+a.extra.Name+" "+c.ID, a.what+": call-site precondition "+c.Src, goal)
+		}
+		a.sets = a.extra.Sets
+		a.ownNames = true
+		if a.resultNames == nil || len(a.extra.Results) > 0 {
+			a.resultNames = a.extra.Results
+		}
+	}
 	// ghost updates (evaluated in the pre-state, results visible)
 	if len(a.sets) > 0 {
 		sctx := &specCtx{g: g, st: pre, old: pre, binds: a.binds, results: results, resultNames: a.resultNames, calleeOnly: !a.ownNames, oldIsPre: true}
@@ -423,6 +481,12 @@ func (g *Gen) applyContract(st *State, a contractApp) Val {
 	ectx := &specCtx{g: g, st: st, old: pre, binds: a.binds, results: results, resultNames: a.resultNames, calleeOnly: !a.ownNames, oldIsPre: true}
 	for _, c := range a.ensures {
 		g.assume(st, g.evalBool(ectx, c.E))
+	}
+	if a.extra != nil {
+		xe := &specCtx{g: g, st: st, old: pre, binds: a.binds, results: results, resultNames: a.resultNames, oldIsPre: true}
+		for _, c := range a.extra.Ensures {
+			g.assume(st, g.evalBool(xe, c.E))
+		}
 	}
 	if res == nil {
 		return TupleV{}
@@ -616,9 +680,9 @@ func (g *Gen) builtin(st *State, b *ssa.Builtin, c *ssa.CallCommon, rt types.Typ
 		for _, a := range args[1:] {
 			o := a.(IntV).T
 			if b.Name() == "min" {
-				cur = ite(g.le(cur, o), cur, o)
+				cur = ite(g.ple(cur, o), cur, o)
 			} else {
-				cur = ite(g.le(cur, o), o, cur)
+				cur = ite(g.ple(cur, o), o, cur)
 			}
 		}
 		return IntV{cur}
@@ -753,3 +817,30 @@ func sortedKeys(m map[string]bool) []string {
 }
 
 func (g *Gen) rootSpec() *FuncSpec { return g.W.specFor(g.rootFn) }
+
+// mentions reports whether expression e uses one of the given identifiers.
+func mentions(e Expr, names map[string]bool) bool {
+	switch x := e.(type) {
+	case *EIdent:
+		return names[x.Name]
+	case *EUnary:
+		return mentions(x.X, names)
+	case *EBin:
+		return mentions(x.L, names) || mentions(x.R, names)
+	case *EIndex:
+		return mentions(x.X, names) || mentions(x.I, names)
+	case *ESlice:
+		return mentions(x.X, names) || (x.Lo != nil && mentions(x.Lo, names)) || (x.Hi != nil && mentions(x.Hi, names))
+	case *ESel:
+		return mentions(x.X, names)
+	case *ECall:
+		for _, a := range x.Args {
+			if mentions(a, names) {
+				return true
+			}
+		}
+	case *EQuant:
+		return mentions(x.Body, names)
+	}
+	return false
+}
